@@ -6,7 +6,7 @@ VERIF = os.path.dirname(os.path.dirname(os.path.abspath(__file__)))
 NOTES = json.load(open(os.path.join(VERIF, "tools", "detection_notes.json"))) if os.path.exists(os.path.join(VERIF, "tools", "detection_notes.json")) else {}
 rows = []
 counts = {"caught": 0, "missed": 0, "undecided": 0, "n/a": 0, "moot": 0}
-for d in sorted(glob.glob(os.path.join(VERIF, "seeded", "C*_[AB]"))):
+for d in sorted(glob.glob(os.path.join(VERIF, "seeded", "C*_[A-D]"))):
     sid = os.path.basename(d)
     meta = json.load(open(os.path.join(d, "meta.json")))
     det = os.path.join(VERIF, "seeded", "detection", sid + ".txt")
